@@ -353,10 +353,15 @@ func c04Case(w *core.Worker, i int) {
 		for _, kn := range names[:nk] {
 			cks = append(cks, "COUNT("+kn+")")
 		}
+		// (and aggregates of constants: counted once per record, or once per bucket when DISTINCT)
+		cks = append(cks, "COUNT(DISTINCT 7)", "COUNT(7)", "SUM(DISTINCT 2)", "COUNT(DISTINCT 'a')", "LISTAGG(DISTINCT 'c')")
 		q := "SELECT LISTAGG(id, ' ') AS ids, " + strings.Join(cks, ", ") + " FROM t GROUP BY " + keyList
 		if v := run(q); v != nil && n > 0 {
 			for _, row := range v.Rows {
 				ids := parseIDs(row[0])
+				if c := row[1+nk:]; c[0].S != "1" || c[1].S != strconv.Itoa(len(ids)) || c[2].S != "2" || c[3].S != "1" || c[4].S != "c" {
+					viol("aggregate:of-a-constant", q, fmt.Sprintf("bucket of rows %v: COUNT(DISTINCT 7), COUNT(7), SUM(DISTINCT 2), COUNT(DISTINCT 'a'), LISTAGG(DISTINCT 'c') = %v", ids, valsToStrs(c)))
+				}
 				for j := 0; j < nk; j++ {
 					want := 0
 					for _, id := range ids {
